@@ -170,12 +170,14 @@ func (ctx *_OpContextType) encodeRaw(as abi.As, arg *abi.AsArgument) (x uint32, 
 		x |= (uint32(sa3) << 15) | (rk << 10) | (rj << 5) | rd
 		return
 	case OpFormatType_code:
+		assert(arg.Imm >= 0 && arg.Imm < (1<<15))
 		code := arg.Imm & 0x7FFF
 		x |= uint32(code)
 		return
 	case OpFormatType_code_1R_si12:
 		// 编码时候带符号的立即数正数部分范围可以放宽到无符号
 		assert(arg.Imm >= -(1<<11) && arg.Imm < (1<<12))
+		assert(arg.Rd >= 0 && arg.Rd < (1<<5))
 		code := uint32(arg.Rd) & 0b_1_1111
 		rj := ctx.regI(arg.Rs1)
 		si12 := arg.Imm & 0xFFF
@@ -184,6 +186,7 @@ func (ctx *_OpContextType) encodeRaw(as abi.As, arg *abi.AsArgument) (x uint32, 
 	case OpFormatType_2R_msbw_lsbw:
 		rd := ctx.regI(arg.Rd)
 		rj := ctx.regI(arg.Rs1)
+		assert(arg.Rs2 >= 0 && arg.Rs2 < (1<<5) && arg.Rs3 >= 0 && arg.Rs3 < (1<<5))
 		msbw := uint32(arg.Rs2) & 0b_0_1_1111
 		lsbw := uint32(arg.Rs3) & 0b_0_1_1111
 		x |= (msbw << 16) | (lsbw << 10) | (rj << 5) | rd
@@ -191,6 +194,7 @@ func (ctx *_OpContextType) encodeRaw(as abi.As, arg *abi.AsArgument) (x uint32, 
 	case OpFormatType_2R_msbd_lsbd:
 		rd := ctx.regI(arg.Rd)
 		rj := ctx.regI(arg.Rs1)
+		assert(arg.Rs2 >= 0 && arg.Rs2 < (1<<6) && arg.Rs3 >= 0 && arg.Rs3 < (1<<6))
 		msbd := uint32(arg.Rs2) & 0b_1_1_1111
 		lsbd := uint32(arg.Rs3) & 0b_1_1_1111
 		x |= (msbd << 16) | (lsbd << 10) | (rj << 5) | rd
@@ -232,6 +236,7 @@ func (ctx *_OpContextType) encodeRaw(as abi.As, arg *abi.AsArgument) (x uint32, 
 		x |= (cj << 5) | fd
 		return
 	case OpFormatType_1R_csr:
+		assert(arg.Imm >= 0 && arg.Imm < (1<<14))
 		rd := ctx.regI(arg.Rd)
 		csr := uint32(arg.Imm) & 0x3FFF
 		x |= (csr << 10) | rd
@@ -239,6 +244,7 @@ func (ctx *_OpContextType) encodeRaw(as abi.As, arg *abi.AsArgument) (x uint32, 
 	case OpFormatType_2R_csr:
 		rd := ctx.regI(arg.Rd)
 		rj := ctx.regI(arg.Rs1)
+		assert(arg.Imm >= 0 && arg.Imm < (1<<14))
 		assert(rj != 0 && rj != 1, "csrxchg: rj must not be $r0 or $r1 (csrrd/csrwr encodings)")
 		csr := uint32(arg.Imm) & 0x3FFF
 		x |= (csr << 10) | (rj << 5) | rd
@@ -251,6 +257,7 @@ func (ctx *_OpContextType) encodeRaw(as abi.As, arg *abi.AsArgument) (x uint32, 
 		x |= (level << 10) | (rj << 5) | rd
 		return
 	case OpFormatType_level:
+		assert(arg.Imm >= 0 && arg.Imm < (1<<15))
 		level := uint32(arg.Imm) & 0x7FFF
 		x |= level
 		return
@@ -261,6 +268,7 @@ func (ctx *_OpContextType) encodeRaw(as abi.As, arg *abi.AsArgument) (x uint32, 
 		x |= (seq << 10) | (rj << 5)
 		return
 	case OpFormatType_op_2R:
+		assert(arg.Rd >= 0 && arg.Rd < (1<<5))
 		op := uint32(arg.Rd) & 0b_1_1111
 		rj := ctx.regI(arg.Rs1)
 		rk := ctx.regI(arg.Rs2)
@@ -270,29 +278,34 @@ func (ctx *_OpContextType) encodeRaw(as abi.As, arg *abi.AsArgument) (x uint32, 
 		fd := ctx.regF(arg.Rd)
 		fj := ctx.regF(arg.Rs1)
 		fk := ctx.regF(arg.Rs2)
+		assert(arg.Imm >= 0 && arg.Imm < (1<<3))
 		ca := uint32(arg.Imm) & 0b_111
 		x |= (ca << 15) | (fk << 10) | (fj << 5) | fd
 		return
 	case OpFormatType_hint_1R_si12:
 		// 编码时候带符号的立即数正数部分范围可以放宽到无符号
 		assert(arg.Imm >= -(1<<11) && arg.Imm < (1<<12))
+		assert(arg.Rd >= 0 && arg.Rd < (1<<5))
 		hint := uint32(arg.Rd) & 0b_1_1111
 		rj := ctx.regI(arg.Rs1)
 		si12 := uint32(arg.Imm) & 0xFFF
 		x |= (si12 << 10) | (rj << 5) | hint
 		return
 	case OpFormatType_hint_2R:
+		assert(arg.Rd >= 0 && arg.Rd < (1<<5))
 		hint := uint32(arg.Rd) & 0b_1_1111
 		rj := ctx.regI(arg.Rs1)
 		rk := ctx.regI(arg.Rs2)
 		x |= (rk << 10) | (rj << 5) | hint
 		return
 	case OpFormatType_hint:
+		assert(arg.Imm >= 0 && arg.Imm < (1<<15))
 		hint := uint32(arg.Imm) & 0x7FFF
 		x |= hint
 		return
 	case OpFormatType_cj_offset:
 		assert(arg.Imm&0b11 == 0)
+		assert(arg.Imm >= -(1<<22) && arg.Imm < (1<<22))
 		imm := uint32(arg.Imm >> 2)
 		off16_20 := (imm >> 16) & 0b_1_1111
 		cj := ctx.regFCC(arg.Rs1)
@@ -301,6 +314,7 @@ func (ctx *_OpContextType) encodeRaw(as abi.As, arg *abi.AsArgument) (x uint32, 
 		return
 	case OpFormatType_rj_offset:
 		assert(arg.Imm&0b11 == 0)
+		assert(arg.Imm >= -(1<<22) && arg.Imm < (1<<22))
 		imm := uint32(arg.Imm >> 2)
 		off16_20 := (imm >> 16) & 0b_1_1111
 		rj := ctx.regI(arg.Rs1)
@@ -309,6 +323,7 @@ func (ctx *_OpContextType) encodeRaw(as abi.As, arg *abi.AsArgument) (x uint32, 
 		return
 	case OpFormatType_rj_rd_offset:
 		assert(arg.Imm&0b11 == 0)
+		assert(arg.Imm >= -(1<<17) && arg.Imm < (1<<17))
 		imm := uint32(arg.Imm >> 2)
 		rj := ctx.regI(arg.Rs1)
 		rd := ctx.regI(arg.Rd)
@@ -317,6 +332,7 @@ func (ctx *_OpContextType) encodeRaw(as abi.As, arg *abi.AsArgument) (x uint32, 
 		return
 	case OpFormatType_rd_rj_offset:
 		assert(arg.Imm&0b11 == 0)
+		assert(arg.Imm >= -(1<<17) && arg.Imm < (1<<17))
 		imm := uint32(arg.Imm >> 2)
 		rd := ctx.regI(arg.Rd)
 		rj := ctx.regI(arg.Rs1)
@@ -325,6 +341,7 @@ func (ctx *_OpContextType) encodeRaw(as abi.As, arg *abi.AsArgument) (x uint32, 
 		return
 	case OpFormatType_offset:
 		assert(arg.Imm&0b11 == 0)
+		assert(arg.Imm >= -(1<<27) && arg.Imm < (1<<27))
 		imm := uint32(arg.Imm >> 2)
 		off16_25 := (imm >> 16) & 0b_11_1111_1111
 		off0_15 := imm & 0xFFFF
